@@ -119,6 +119,9 @@ func (x *fx) execute(loopWrites map[int]*loopInfo) {
 		bind(p, p.Name())
 		if _, ok := p.Type().Underlying().(*types.Pointer); ok {
 			x.assume("(> (p-ref " + x.vals[p].S + ") 0)")
+			// the cell of a captured local variable is never the cell of a
+			// package-level variable (those have the references 1000000..1999999)
+			x.assume("(or (< (p-ref " + x.vals[p].S + ") 1000000) (>= (p-ref " + x.vals[p].S + ") 2000000))")
 		}
 	}
 	if !x.c.MayAlias && len(sliceParams) > 1 {
